@@ -22,7 +22,7 @@ PLAN = {
     "thorough": {"shards": 16, "shard_timeout": 3600, "case_timeout": 30, "grammars": 4000, "max_case_timeouts": 80},
 }
 THRESHOLDS = {
-    "quick": {"cases_declared_with_string_annotations": 60, "mapped:ge": 200, "mapped:sge": 200, "mapped:dsge": 200, "mapped:stack": 30, "programs_checked": 2000, "kind:tuple": 50, "kind:union": 30, "kind:bool": 50, "kind:list": 100, "kind:abstract": 500, "repr:tree": 200, "repr:ge": 100, "repr:sge": 100, "repr:dsge": 100, "repr:stack": 20, "op:mutate": 100, "op:crossover": 100, "fitness_args_checked": 100, "redeclared_grammars": 40},
+    "quick": {"cases_declared_with_string_annotations": 60, "mapped:ge": 200, "mapped:sge": 200, "mapped:dsge": 200, "mapped:stack": 30, "programs_checked": 2000, "kind:tuple": 50, "kind:union": 30, "kind:bool": 50, "kind:list": 100, "kind:abstract": 500, "repr:tree": 200, "repr:ge": 100, "repr:sge": 100, "repr:dsge": 100, "repr:stack": 20, "op:mutate": 100, "op:crossover": 100, "fitness_args_checked": 100, "redeclared_grammars": 40, "geml_fits": 9, "geml_programs_checked": 9},
     "thorough": {"programs_checked": 40000, "kind:tuple": 1000, "kind:union": 600, "kind:bool": 1000, "repr:stack": 300, "fitness_args_checked": 2000},
 }
 
@@ -34,6 +34,11 @@ def gen_cases(tier, seed):
     for case in stream.gen_cases(tier, seed + 41, max(10, PLAN[tier]["grammars"] // 5), profiles=("unproductive-part",), expansion_share=0.0):
         case["unproductive_part"] = True
         yield case
+    # the geml front-end builds its grammar from the DATA (feature names, class labels): ordinary data sets
+    for est in ("classifier", "regressor"):
+        for x in ("ndarray", "dataframe-named", "dataframe-unnamed"):
+            for labels in (("int", "bool") if est == "classifier" else ("float",)):  # (the classifiers score with r2: numeric labels)
+                yield {"kind": "geml", "estimator": est, "x": x, "labels": labels, "seed": seed}
 
 
 def _kinds(model, t, rec, seen):
@@ -111,7 +116,63 @@ def judge_exception(ctx, ev, rec):
     )
 
 
+def run_geml(case, rec):
+    """fit() of a geml estimator on an everyday data set; every program it kept (best, recorded bests) is checked against
+    the grammar the estimator itself extracted (reference model over its classes)."""
+    import numpy as np
+    import pandas as pd
+    from gev import refmodel
+
+    rng = np.random.default_rng(case["seed"])
+    data = rng.normal(size=(30, 2))
+    if case["x"] == "dataframe-named":
+        X = pd.DataFrame(data, columns=["width", "height"])
+    elif case["x"] == "dataframe-unnamed":
+        X = pd.DataFrame(data)  # columns 0, 1
+    else:
+        X = data
+    if case["estimator"] == "classifier":
+        from geml.classifiers import RandomSearchClassifier as Est
+
+        y = (data[:, 0] > 0).astype(int)
+        if case["labels"] == "bool":
+            y = y.astype(bool)
+    else:
+        from geml.regressors import RandomSearchRegressor as Est
+
+        y = data[:, 0] * 2 + data[:, 1]
+    wit = {"estimator": case["estimator"], "X": case["x"], "labels": case["labels"]}
+    rec.count("geml_fits")
+    est = Est(max_time=1, seed=case["seed"], remove_time_overheads=False)
+    try:
+        est.fit(X, y)
+    except core.CaseTimeout:
+        raise
+    except BaseException as e:  # noqa
+        if core.is_library_error(e):
+            rec.count("geml_fit_rejected_by_the_library")
+            return
+        rec.violation(f"exc:geml:{case['estimator']}:fit:{type(e).__name__}@{core.exc_site(e)}", dict(wit, error=core.short(e)))
+        return
+    g = est.grammar
+    model = refmodel.Model(list(g.considered_subtypes), g.starting_symbol)
+    progs = [est.best_individual.get_phenotype()] + [i.get_phenotype() for i in list(getattr(est, "best_individuals", []))[:30]]
+    for p in progs:
+        rec.count("programs_checked")
+        rec.count("geml_programs_checked")
+        rec.count("evaluations")
+        bad = model.welltyped(p, g.starting_symbol)
+        if bad:
+            path, declared, reason = bad[0]
+            rec.violation(f"illtyped:geml:{case['estimator']}:{declared}:{str(reason).replace(' ', '_')}", dict(wit, path=path, program=core.short(p, 200)))
+            break
+    rec.distinct_add(["geml", case["estimator"], case["x"], case["labels"]])
+    rec.sample(dict(wit, programs=len(progs), best=core.short(progs[0], 120)))
+
+
 def run_case(case, rec):
+    if case.get("kind") == "geml":
+        return run_geml(case, rec)
     ctx = stream.open_case(case, rec)
     if ctx is None:
         return
